@@ -141,6 +141,10 @@ partial def loop (h : IO.FS.Stream) (d : DS) : IO Unit := do
                      readLimit := 0, maxFrame := (f "maxframe").toNat!, isClient := false }
     IO.println "ok"; loop h { mode := "rt", g, gc := { g with isClient := true } }
   | "C" :: "mask" :: _ => IO.println "ok"; loop h { mode := "mask" }
+  | "C" :: "utf8" :: _ => IO.println "ok"; loop h { mode := "utf8" }
+  | "U" :: sp :: _ =>
+    if d.mode != "utf8" then IO.println "bad-op"; loop h d else
+    IO.println s!"R {if utf8Valid (bytesOf sp) then 1 else 0}"; loop h d
   | "M" :: key :: sp :: _ =>
     if d.mode != "mask" then IO.println "bad-op"; loop h d else
     IO.println s!"R {short (maskFast (unhex key) (bytesOf sp))}"; loop h d
